@@ -109,6 +109,15 @@ func cellsC04(thorough bool) []Cfg {
 			}
 		}
 	}
+	// the run is cancelled at token instants and between them: a token that is in time is fired or
+	// left alone, never reported as discarded
+	for _, p := range []Sched{cst(2, 3000), comp(once(2), cst(0, 1000), once(2))} {
+		for _, disc := range []bool{true, false} {
+			for _, h := range [][]int64{{0}, {100}} {
+				out = append(out, Cfg{Prop: "C04", Startup: once(1), RPS: p, Ammo: -1, Discard: disc, ShotMs: h, Bound: 1, Cancel: true, CancelMs: []int64{0, 500, 750, 1000}})
+			}
+		}
+	}
 	// several instances: interleavings and stalls (ADVANCE) with preemption bound 1
 	ml := 2
 	for _, n := range []int{2, 3} {
